@@ -46,6 +46,10 @@ func globalWritten(prog *ssa.Program, g *ssa.Global) bool {
 					case *ssa.FieldAddr:
 						a = x.X
 						continue
+					case *ssa.Slice:
+						// a slice of a package-level array shares its storage
+						a = x.X
+						continue
 					}
 					break
 				}
